@@ -47,15 +47,15 @@ func modelQuery(x *Exec, o *Obligation, terms []string) map[string]string {
 		cancel()
 		os.Remove(f.Name())
 		txt := string(out)
-		i := strings.Index(txt, "\n")
-		if i < 0 {
-			continue
-		}
-		first := strings.TrimSpace(txt[:i])
+		first := statusLine(txt)
 		if first != "sat" && first != "unknown" {
 			continue
 		}
-		rest := txt[i+1:]
+		i := strings.Index(txt, first+"\n")
+		if i < 0 {
+			continue
+		}
+		rest := txt[i+len(first)+1:]
 		if strings.Contains(rest, "(error") && !strings.Contains(rest, "((") {
 			continue
 		}
